@@ -6,6 +6,7 @@ import (
 	"net/http"
 
 	"github.com/buildbuildio/pebbles/common"
+	"github.com/buildbuildio/pebbles/gqlerrors"
 	"github.com/buildbuildio/pebbles/requests"
 	"github.com/samber/lo"
 )
@@ -161,14 +162,25 @@ func (q *MultiOpQueryer) queryBatch(inputs []*requests.Request) ([]map[string]in
 	}
 
 	// format the result as needed
+	var errs gqlerrors.ErrorList
 	for i, resp := range resps {
+		// collect errors of every failed request of the batch
 		if len(resp.Errors) != 0 {
-			return nil, resp.Errors
+			errs = append(errs, resp.Errors...)
+			continue
 		}
 		if resp.Data == nil {
-			return nil, fmt.Errorf("response from %s contains neither data nor errors", q.url)
+			errs = append(errs, gqlerrors.NewError(
+				gqlerrors.UndefinedError,
+				fmt.Errorf("response from %s contains neither data nor errors", q.url),
+			))
+			continue
 		}
 		results[toFetchIndexes[i]] = resp.Data
+	}
+
+	if len(errs) != 0 {
+		return nil, errs
 	}
 
 	return results, nil
